@@ -8,6 +8,7 @@ import Pff.Model.GF
 import Pff.Model.Facade
 import Pff.Model.Merge
 import Pff.Model.Rfigc
+import Pff.Model.Ecc
 /-!
 Line-protocol driver: one request per line on stdin, one canonical reply per line on stdout.
 Run with `lake env lean --run Pff/Driver.lean`. Byte strings are hex ("-" = empty); lists of
@@ -160,8 +161,55 @@ def parseOp (t : String) : Option Pff.Rfigc.Op :=
   | ["U", a, r, i] => do some (.update (a == "1") (r == "1") (← parseInput i))
   | _ => none
 
+/-! ### per-file correction logic with recorded hash / codec tables -/
+
+def parseHTab (toks : List String) : Option (List (List Nat × List Nat)) :=
+  toks.mapM (fun t => match t.splitOn ":" with
+    | [m, h] => do some ((← parseHex m), (← parseHex h))
+    | _ => none)
+
+def parseCTab (toks : List String) : Option (List ((Nat × List Nat × List Nat) × Bool)) :=
+  toks.mapM (fun t => match t.splitOn ":" with
+    | [k, m, e, r] => do some (((← k.toNat?), (← parseHex m), (← parseHex e)), r == "1")
+    | _ => none)
+
+def parseDTab (toks : List String) : Option (List ((Nat × List Nat × List Nat) × Option (List Nat × List Nat))) :=
+  toks.mapM (fun t => match t.splitOn ":" with
+    | [k, m, e, "none"] => do some (((← k.toNat?), (← parseHex m), (← parseHex e)), none)
+    | [k, m, e, a, b] => do some (((← k.toNat?), (← parseHex m), (← parseHex e)), some ((← parseHex a), (← parseHex b)))
+    | _ => none)
+
+def opsOfTables (ht : List (List Nat × List Nat)) (ct : List ((Nat × List Nat × List Nat) × Bool))
+    (dt : List ((Nat × List Nat × List Nat) × Option (List Nat × List Nat))) : Pff.Ecc.Ops :=
+  { H := fun m => match ht.find? (fun e => e.1 == m) with | some e => e.2 | none => [999]
+    enc := fun _ _ => []
+    chk := fun k m e => match ct.find? (fun x => x.1 == (k, m, e)) with | some x => x.2 | none => false
+    dec := fun k m e => match dt.find? (fun x => x.1 == (k, m, e)) with | some x => x.2 | none => none }
+
+def showFileResult (r : Pff.Ecc.FileResult) : String :=
+  let o := match r.output with | none => "none" | some b => toHex b
+  s!"{o} {if r.corrupted then 1 else 0} {if r.complete then 1 else 0} {if r.partialRep then 1 else 0}"
+
 def handle (toks : List String) : String :=
   match toks with
+  | "eccfileh" :: fast :: thr :: hl :: mbs :: k :: readLen :: content :: track :: rest =>
+    match thr.toNat?, hl.toNat?, mbs.toNat?, k.toNat?, readLen.toNat?, parseHex content, parseHex track, splitAll ";" rest with
+    | some thr, some hl, some mbs, some k, some readLen, some c, some t, [ht, ct, dt] =>
+      match parseHTab ht, parseCTab ct, parseDTab dt with
+      | some ht, some ct, some dt =>
+        showFileResult (Pff.Ecc.correctHeaderFile (opsOfTables ht ct dt) (fast == "1") thr k hl mbs readLen c t)
+      | _, _, _ => "bad-op"
+    | _, _, _, _, _, _, _, _ => "bad-op"
+  | "eccfilew" :: fast :: thr :: hl :: mbs :: hdr :: recsize :: r1 :: r2 :: r3 :: content :: track :: rest =>
+    match thr.toNat?, hl.toNat?, mbs.toNat?, hdr.toNat?, recsize.toNat?, parseFloatBits r1, parseFloatBits r2, parseFloatBits r3,
+          parseHex content, parseHex track, splitAll ";" rest with
+    | some thr, some hl, some mbs, some hdr, some rs, some r1, some r2, some r3, some c, some t, [ht, ct, dt] =>
+      match parseHTab ht, parseCTab ct, parseDTab dt with
+      | some ht, some ct, some dt =>
+        showFileResult (Pff.Ecc.correctWholeFile (opsOfTables ht ct dt) (fast == "1") thr
+          (Pff.Layout.kOfFloat mbs hdr rs r1 r2 r3) hl mbs c t)
+      | _, _, _ => "bad-op"
+    | _, _, _, _, _, _, _, _, _, _, _ => "bad-op"
   | "rfcheck" :: m :: sm :: sh :: inp :: rest =>
     -- rest = TREE0 ; TREE1 ; HASHTABLE   (db = genDb TREE0, checked against TREE1)
     match splitAll ";" rest, parseInput inp with
